@@ -54,6 +54,27 @@ impl Ctx<'_> {
 /// character from {0,f,g}; every truncation of a valid hex string; every single-character
 /// substitution of it by 'g' and by 'F'; the valid string with one or two extra characters.
 fn hex_family(valid: &str, max_len: usize, mut f: impl FnMut(&str)) {
+    // multi-byte characters at every byte offset of a string of the valid byte length (and one byte longer / shorter):
+    // byte length and character boundaries disagree exactly there
+    for (ch, w) in [("\u{e9}", 2usize), ("\u{20ac}", 3), ("\u{1f600}", 4)] {
+        for total in [valid.len().saturating_sub(1), valid.len(), valid.len() + 1] {
+            if total < w {
+                continue;
+            }
+            for at in 0..=(total - w) {
+                let mut s = String::with_capacity(total);
+                s.push_str(&valid.get(..at.min(valid.len())).unwrap_or(valid));
+                while s.len() < at {
+                    s.push('0');
+                }
+                s.push_str(ch);
+                while s.len() < total {
+                    s.push('a');
+                }
+                f(&s);
+            }
+        }
+    }
     for c in ['0', 'f', 'g'] {
         for l in 0..=max_len {
             let s: String = std::iter::repeat(c).take(l).collect();
@@ -275,6 +296,13 @@ fn amounts(cx: &Ctx) {
         }
     });
     amount_range_edge(cx);
+    // fractions of every length 1..=600 (a digit count that wraps at 256 must not turn "too many digits" into a value)
+    for fl in 1..=600usize {
+        for units in ["0", "1"] {
+            amount_prints_what_was_parsed(cx, &format!("{units}.{}5", "0".repeat(fl - 1)));
+            amount_prints_what_was_parsed(cx, &format!("{units}.{}", "9".repeat(fl)));
+        }
+    }
     for l in [77usize, 78, 79, 100, 1000] {
         let s: String = std::iter::repeat('9').take(l).collect();
         cx.call("AttoTokens::from_str", json!({"nines": l}), s.as_bytes(), true, || ant_evm::AttoTokens::from_str(&s).map(|_| ()));
